@@ -240,9 +240,9 @@ class SQLiteDateConverter(dbapiprovider.DateConverter):
 class SQLiteTimeConverter(dbapiprovider.TimeConverter):
     def sql2py(converter, val):
         try:
-            if len(val) <= 8: dt = datetime.strptime(val, '%H:%M:%S')
-            else: dt = datetime.strptime(val, '%H:%M:%S.%f')
-            return dt.datetime.time()
+            if len(val) <= 8: dt = datetime.datetime.strptime(val, '%H:%M:%S')
+            else: dt = datetime.datetime.strptime(val, '%H:%M:%S.%f')
+            return dt.time()
         except: return val
     def py2sql(converter, val):
         return val.isoformat()
